@@ -4,7 +4,7 @@ use crate::drive::*;
 use crate::explore::*;
 use crate::world::*;
 use serde_json::{json, Map, Value};
-use std::collections::{BTreeMap, BTreeSet, HashMap, HashSet};
+use std::collections::{BTreeSet, HashMap, HashSet};
 
 #[derive(Clone, Debug)]
 pub struct Level {
@@ -28,6 +28,9 @@ pub struct ChainSpec {
     pub fam: String,
     /// also follow interrupted evaluations by a second interruption before the resume
     pub double_interrupt: bool,
+    /// 0 = every schedule; k = k seeded random schedules per evaluation
+    pub paths: usize,
+    pub seed: u64,
 }
 
 pub struct ChainRun<'a> {
@@ -60,11 +63,20 @@ fn subsets(items: &[String], maxk: usize) -> Vec<BTreeSet<String>> {
     out
 }
 
-fn world_after(w: &World, e: &EndInfo) -> World {
+pub fn world_after(w: &World, e: &EndInfo) -> World {
     let mut w2 = w.clone();
     w2.hist = e.hist1.clone();
     w2.files = e.files1.clone();
     w2.evalno = w.evalno + 1;
+    // ground truth: what every successfully executed job was built from; who was touched by a
+    // failed or interrupted attempt
+    for (j, m) in e.consumed.iter() {
+        w2.built.insert(j.clone(), m.clone());
+        w2.dirty.remove(j);
+    }
+    for j in e.touched.iter() {
+        w2.dirty.insert(j.clone());
+    }
     w2
 }
 
@@ -81,6 +93,8 @@ impl<'a> ChainRun<'a> {
             steps: self.spec.steps,
             max_states: self.spec.max_states,
             single: false,
+            paths: self.spec.paths,
+            seed: self.spec.seed,
         }
     }
 
@@ -194,10 +208,12 @@ impl<'a> ChainRun<'a> {
                 }
             }
             // continue from every distinct end world
-            let mut seen_worlds: HashSet<(BTreeMap<String, String>, BTreeMap<String, String>, BTreeSet<String>)> =
-                HashSet::new();
+            let mut seen_worlds: HashSet<String> = HashSet::new();
             for (end, flaky) in all {
-                if !seen_worlds.insert((end.hist1.clone(), end.files1.clone(), end.succ_outputs.clone())) {
+                if !seen_worlds.insert(format!(
+                    "{:?}|{:?}|{:?}|{:?}|{:?}",
+                    end.hist1, end.files1, end.succ_outputs, end.consumed, end.touched
+                )) {
                     continue;
                 }
                 let mut w3 = world_after(&w2, &end);
@@ -246,13 +262,12 @@ impl<'a> ChainRun<'a> {
                 if let Some(r2) = self.explore(w3, &cfg, &o, ex2, &format!("{}~f{:?}", pk2, fs)) {
                     let mut seen_w = HashSet::new();
                     for e2 in r2.ends {
-                        if e2.clean || !seen_w.insert((e2.hist1.clone(), e2.files1.clone())) {
+                        if e2.clean
+                            || !seen_w.insert(format!("{:?}|{:?}|{:?}|{:?}", e2.hist1, e2.files1, e2.consumed, e2.touched))
+                        {
                             continue;
                         }
-                        let mut w4 = w3.clone();
-                        w4.hist = e2.hist1.clone();
-                        w4.files = e2.files1.clone();
-                        w4.evalno += 1;
+                        let w4 = world_after(w3, &e2);
                         self.resume(&w4, &e2, twin_line, depth, &pk2, 1, &prevsucc);
                     }
                 }
@@ -262,7 +277,7 @@ impl<'a> ChainRun<'a> {
             // after a clean resume the chain goes on
             let mut seen_w = HashSet::new();
             for e in r.ends {
-                if e.clean && seen_w.insert((e.hist1.clone(), e.files1.clone())) {
+                if e.clean && seen_w.insert(format!("{:?}|{:?}|{:?}|{:?}", e.hist1, e.files1, e.consumed, e.touched)) {
                     let w4 = world_after(w3, &e);
                     self.level(&w4, depth + 1, Some((e.line, true)), &format!("{}>{}", pk2, e.sig));
                 }
